@@ -3,14 +3,15 @@ import itertools
 import wire
 from wire import mk_fmt, cells
 from props.common import reply_fmt, guarded, canon_cells, PALETTE
-from props.widthenv import (ALPHA3, wc, env_fields, text_of, cut_layouts, self_check, realize, shared_variants,
+from props.widthenv import (SEQ_ALPHA, SEQ_TEXTS, ALPHA3, wc, env_fields, text_of, cut_layouts, self_check, realize, shared_variants,
                             shared_case_fields, pool_size, pool_object, safe_oracle, safe_impl)
 import curtsies.formatstring as F
 
 PROP = "C10"
 MODULES = ["Curtsies.Properties.C10"]
 RULE = ("exhaustive: every string of length <=4 (quick and thorough; <=5 thorough) over {narrow 'a', wide U+FF25, combining "
-        "U+0301} x every run layout (no runs, 1 run, every placement of 1 or 2 cuts incl. empty runs) x "
+        "U+0301}, plus strings over SEQUENCE characters (thumbs-up emoji, Fitzpatrick modifier, VS16, ZWJ, Indic spacing "
+        "marks: all strings <=2 and 12 longer sequences; thorough <=3) x every run layout (no runs, 1 run, every placement of 1 or 2 cuts incl. empty runs) x "
         "{width, width_at_offset(n) for 0<=n<=len+1, width_aware_slice(a:b) for all 0<=a<=b<=W+2}; the same three operations "
         "on FmtStr values that share Chunk objects by identity (f*2, f*3, f+f, join with repeated item/separator, whole-run "
         "slices concatenated; strings <=2), on results of `observe the source -> splice/setitem k characters by k characters "
@@ -82,6 +83,21 @@ def mk_cases(ctx):
                     fields = shared_case_fields(spec)
                     t = text_of(fields["f"])
                     ops_for(fields, len(t), sum(wc(c) for c in t))
+    # SEQUENCES: widths are per code point ("two per double-width character, none per combining character"), also where a
+    # sequence-aware table would collapse them (emoji + skin-tone modifier, base + VS16, ZWJ sequences) and for code points
+    # on which width tables disagree (Indic spacing marks)
+    seq_strings = ["".join(t) for n in (1, 2) for t in itertools.product(SEQ_ALPHA, repeat=n)] + SEQ_TEXTS
+    if ctx.thorough:
+        seq_strings += ["".join(t) for t in itertools.product(SEQ_ALPHA, repeat=3)]
+    for s in seq_strings:
+        W = sum(wc(x) for x in s)
+        for ch in cut_layouts(s, PALETTE, max_cuts=1 if len(s) > 2 else 2):
+            ops_for(dict(f=ch), len(s), W)
+        for spec in shared_variants([(s, dict(PALETTE[1]))])[:3]:
+            fields = shared_case_fields(spec)
+            t = text_of(fields["f"])
+            if len(t) <= 8:
+                ops_for(fields, len(t), sum(wc(x) for x in t))
     # observe the source (.width, len, .s, str, width_at_offset) -> replace k characters by k characters of a different
     # total width (splice / setitem) -> measure the result against ITS OWN runs
     repl = {1: list(ALPHA3), 2: ["a\uff25", "\uff25\u0301", "\u0301a", "\uff25\uff25"]}
